@@ -209,6 +209,11 @@ NCcoordck(NC *handle, NC_var *vp, const long *coords)
         } /* !SD_NOFILL  */
 
         vp->numrecs = MAX(vp->numrecs, (*ip + 1)); /* if NOFILL  */
+        /* the variable has grown: the record count kept with its description
+           has to be brought up to date when the file is closed, also when the
+           file's maximum number of records stays as it is */
+        if (handle->xdrs->x_op == XDR_ENCODE)
+            handle->flags |= NC_NDIRTY;
         if ((*ip + 1) > (long)(handle->numrecs)) {
             handle->numrecs = *ip + 1;
             handle->flags |= NC_NDIRTY;
@@ -1759,8 +1764,11 @@ NCvario(NC *handle, int varid, const long *start, const long *edges, void *value
          * This is a kludge to work around the fact the NCcoordck() doesn't
          * get the upper limits on the slab to write out -QAK
          */
-        if (upper[0] > vp->numrecs)
+        if (upper[0] > vp->numrecs) {
             vp->numrecs = upper[0];
+            if (handle->file_type == HDF_FILE && handle->xdrs->x_op == XDR_ENCODE)
+                handle->flags |= NC_NDIRTY;
+        }
     } /* end inline */
 
 #ifdef NOTNOW
